@@ -56,8 +56,8 @@ class World:
     def fault(self, k):
         self.stats["faults"][k] = self.stats["faults"].get(k, 0) + 1
 
-    def probe(self, k):
-        self.stats["probes"][k] = self.stats["probes"].get(k, 0) + 1
+    def probe(self, k, n=1):
+        self.stats["probes"][k] = self.stats["probes"].get(k, 0) + n
 
     def install(self):
         self.seam.install()
